@@ -476,6 +476,14 @@ func countWalkArgs(c *Ctx, info *types.Info, walk *types.Func, tc *tcase, field,
 				return true
 			}
 			if id, ok := call.Fun.(*ast.Ident); !ok || info.Uses[id] != walk {
+				// a helper that walks each element of the list it is given, once
+				if id, ok := call.Fun.(*ast.Ident); ok {
+					if h, ok := info.Uses[id].(*types.Func); ok {
+						if pi := walkEachHelper(c, info, walk, h); pi >= 0 && pi < len(call.Args) && matchSel(unparen(call.Args[pi])) {
+							n++
+						}
+					}
+				}
 				return true
 			}
 			arg := unparen(call.Args[1])
@@ -488,6 +496,62 @@ func countWalkArgs(c *Ctx, info *types.Info, walk *types.Func, tc *tcase, field,
 		})
 	}
 	return n
+}
+
+// walkEachHelper: h is a function of the package that ranges over one of its slice parameters and passes each element
+// to Walk exactly once (and walks nothing else); returns the index of that parameter, or -1.
+func walkEachHelper(c *Ctx, info *types.Info, walk *types.Func, h *types.Func) int {
+	fd := c.Decl(h)
+	if fd == nil || fd.Body == nil || h == walk {
+		return -1
+	}
+	params := map[types.Object]int{}
+	k := 0
+	for _, fl := range fd.Type.Params.List {
+		for _, nm := range fl.Names {
+			params[info.Defs[nm]] = k
+			k++
+		}
+	}
+	idx, walks, inRange := -1, 0, 0
+	ast.Inspect(fd.Body, func(x ast.Node) bool {
+		switch y := x.(type) {
+		case *ast.RangeStmt:
+			id, ok := unparen(y.X).(*ast.Ident)
+			if !ok {
+				return true
+			}
+			pi, isParam := params[info.Uses[id]]
+			if !isParam {
+				return true
+			}
+			vid, ok := y.Value.(*ast.Ident)
+			if !ok {
+				return true
+			}
+			rv := info.Defs[vid]
+			ast.Inspect(y.Body, func(z ast.Node) bool {
+				if call, ok := z.(*ast.CallExpr); ok && len(call.Args) == 2 {
+					if fid, ok := call.Fun.(*ast.Ident); ok && info.Uses[fid] == walk {
+						if aid, ok := unparen(call.Args[1]).(*ast.Ident); ok && info.Uses[aid] == rv {
+							inRange++
+							idx = pi
+						}
+					}
+				}
+				return true
+			})
+		case *ast.CallExpr:
+			if fid, ok := y.Fun.(*ast.Ident); ok && info.Uses[fid] == walk {
+				walks++
+			}
+		}
+		return true
+	})
+	if walks == 1 && inRange == 1 {
+		return idx
+	}
+	return -1
 }
 
 func ruleWalkTypedNil(c *Ctx, r *R) {
